@@ -1177,3 +1177,149 @@ def judge_histories(ctx, work, name, hl, asan):
             ctx.violation("object history %s: %s" % ([[s["op"], s["w"], s["src"]] for s in h["steps"]], b),
                           dict(history=h["steps"], observed=o, asan=asan, stat_key="objects"))
     return n
+
+
+# ---- helper objects (PyObjectsH) ------------------------------------------------------------------------------
+DIRECT_KINDS = ("seq", "mseq", "copies", "map", "mmap", "bound", "keys", "mapiter")
+H_CLASSES = ["C02-mapping-iter-leaks-owner", "C02-sequence-search-leaks-items", "C02-mapping-setitem-const-owner"]
+
+
+def hhistory_script(name, hists):
+    out = []
+    for hid, hst in hists:
+        steps = []
+        for s in hst["steps"]:
+            wr, hp = s["wr"], s["hp"]
+            a = s["a"]
+            kind = hp[a - 1]["kind"] if s["op"] in ("EvalProperty", "SetItem") and a else None
+            uw = ["w%d" % (i + 1) for i, w in enumerate(wr) if w["ptr"] and w["held"] and s["alive"][w["ptr"] - 1]]
+            uh = []
+            for i, h in enumerate(hp):
+                if h["kind"] in ("none", "iter", "mapiter") or not h["held"]:
+                    continue
+                ow = wr[h["on"] - 1]
+                if not (ow["ptr"] and s["alive"][ow["ptr"] - 1]):
+                    continue
+                uh.append(["h%d" % (i + 1), h["kind"], not (h["kind"] in ("mseq", "mmap") and not ow["const"])])
+            pre = "h" if s["op"] in ("EvalProperty", "EvalKeys", "Iter", "IterNext", "SetItem", "DropHelper") else "w"
+            bpre = "w" if s["op"] in ("EvalProperty", "ReturnBorrowed", "ReturnConstRef") else "h"
+            steps.append(dict(op=s["op"], a="%s%d" % (pre, a), b="%s%d" % (bpre, s["b"]), kind=kind, val=s["val"],
+                              usable_w=uw, usable_h=uh))
+        out.append(dict(id=hid, steps=steps))
+    return dict(module=name, mode="helpers", histories=out)
+
+
+def judge_hhistory(hst, o):
+    """returns [(text, [finding classes from the input])]"""
+    bad = []
+    ident = {}
+    leaky = False          # input predicate: an iterator over a mapping helper was created earlier
+    for n, (s, ob) in enumerate(zip(hst["steps"], o["obs"])):
+        wr, hp = s["wr"], s["hp"]
+        tag = "step %d %s" % (n + 1, s["op"])
+        base_cls = ["C02-mapping-iter-leaks-owner"] if leaky else []
+        if s["op"] == "Iter" and hp[s["a"] - 1]["kind"] == "mapiter":
+            leaky = True           # the leak shows when the iterator goes away: later steps
+        want_exc = s["exc"] or None
+        if ob["exc"] != want_exc:
+            bad.append(("%s: exception %s, expected %s" % (tag, ob["exc"], want_exc), base_cls))
+        if s["op"] == "IterNext" and not s["exc"]:
+            it = hp[s["a"] - 1]
+            if it["kind"] == "mapiter":
+                want = "abc"[s["val"] - 1]
+            else:
+                under = hp[it["via"] - 1]
+                cell = s["cell"][wr[under["on"] - 1]["ptr"] - 1]
+                want = "abc"[s["val"] - 1] if under["kind"] == "keys" else [cell, 1001, 1002][s["val"] - 1]
+            if ob["val"] != want:
+                bad.append(("%s: delivered %r, expected %r" % (tag, ob["val"], want), base_cls))
+        if ob["cnt"] != [s["made"], s["died"]]:
+            bad.append(("%s: constructed/destroyed %s, expected %s" % (tag, ob["cnt"], [s["made"], s["died"]]), base_cls))
+        for i, w in enumerate(wr):
+            k = "w%d" % (i + 1)
+            if not (w["ptr"] and w["held"] and s["alive"][w["ptr"] - 1]):
+                continue
+            if k not in ob["w"]:
+                bad.append(("%s: wrapper %s not observable" % (tag, k), base_cls))
+                continue
+            own, const, oid, drc, vals = ob["w"][k]
+            cell = s["cell"][w["ptr"] - 1]
+            if own != w["mem"] or const != w["const"]:
+                bad.append(("%s: %s has this_ownership=%s this_const=%s, expected %s/%s" % (tag, k, own, const, w["mem"], w["const"]), base_cls))
+            if ident.setdefault(w["ptr"], oid) != oid:
+                bad.append(("%s: %s wraps another instance than before" % (tag, k), base_cls))
+            want_rc = sum(1 for h in hp if h["kind"] in DIRECT_KINDS and h["on"] == i + 1)
+            if drc != want_rc:
+                bad.append(("%s: %d references to %s beyond its variable, %d helpers refer to it" % (tag, drc, k, want_rc), base_cls))
+            if vals != [cell, 1001, 1002]:
+                bad.append(("%s: %s.get_vals() = %s, expected %s" % (tag, k, vals, [cell, 1001, 1002]), base_cls))
+        for i, h in enumerate(hp):
+            k = "h%d" % (i + 1)
+            if k not in ob["probes"]:
+                continue
+            r = ob["probes"][k]
+            ow = wr[h["on"] - 1]
+            cell = s["cell"][ow["ptr"] - 1]
+            kind = h["kind"]
+            want = {}
+            cls = list(base_cls)
+            if kind in ("seq", "mseq"):
+                want = dict(len=3, items=[cell, 1001, 1002], search=[True, 1, 2], made=0, died=0)
+            elif kind == "copies":
+                m = 3 + (1 if cell == 0 else 3) + 3 + (1 if cell == 0 else 3)
+                want = dict(len=3, items=[cell, 1001, 1002], search=[cell == 0, 1 if cell == 0 else 0, "found" if cell == 0 else "ValueError"],
+                            made=m, died=m)
+                cls.append("C02-sequence-search-leaks-items")
+            elif kind in ("map", "mmap"):
+                want = dict(len=3, items=[cell, 1001, 7], has=[True, False], missing="KeyError", made=0, died=0,
+                            views=[["a", "b", "c"], [cell, 1001, 1002], [["a", cell], ["b", 1001], ["c", 1002]]])
+            elif kind == "keys":
+                want = dict(len=3, items=["a", "b", "c"], has=[True, False], made=0, died=0)
+            elif kind == "bound":
+                want = dict(items=[cell, 1001, 1002], made=0, died=0)
+            ro = not (kind in ("mseq", "mmap") and not ow["const"])
+            if ro and kind != "bound":
+                want["ro"] = "TypeError"
+                if kind == "mmap":
+                    cls.append("C02-mapping-setitem-const-owner")
+            want["drc"] = {q: 0 for q in r.get("drc", {})}
+            diff = {q: (r.get(q), v) for q, v in want.items() if r.get(q) != v}
+            if "exc" in r:
+                diff["exc"] = (r["exc"], None)
+            if diff:
+                bad.append(("%s: probing helper %s (%s of w%d): observed/expected %s" % (tag, k, kind, h["on"], diff), cls))
+    dl = [x for x in o["dlog"].split(",") if x]
+    if len(dl) != len(set(dl)):
+        bad.append(("an instance was destroyed twice: %s" % dl, []))
+    return bad
+
+
+def hclasses_of(hst):
+    """finding classes a history belongs to (input only), for the precision figures"""
+    out = set()
+    for s in hst["steps"]:
+        if s["op"] == "Iter" and s["hp"][s["a"] - 1]["kind"] == "mapiter":
+            out.add("C02-mapping-iter-leaks-owner")
+        for h in s["hp"]:
+            if h["kind"] == "copies" and h["held"]:
+                out.add("C02-sequence-search-leaks-items")
+            if h["kind"] == "mmap" and h["held"] and s["wr"][h["on"] - 1]["const"]:
+                out.add("C02-mapping-setitem-const-owner")
+    return out
+
+
+def helpers_batch(args):
+    work, name, hists, asan = args
+    res = dict(name=name)
+    wd = os.path.join(work, name)
+    try:
+        build_objects_module(wd, name, asan=asan, helpers=True)
+    except pymod.PymodError as e:
+        res["build_error"] = (e.stage, e.detail[-3000:])
+        return res
+    json.dump(hhistory_script(name, hists), open(os.path.join(wd, "script.json"), "w"))
+    recs, rc, err = run_driver(wd, os.path.join(wd, "script.json"), os.path.join(wd, "out.ndjson"), asan=asan)
+    res.update(rc=rc, stderr=err, obs={r["h"]: r for r in recs if "h" in r},
+               last_at=next((r["at"] for r in reversed(recs) if "at" in r), None),
+               finished=any("done" in r for r in recs))
+    return res
